@@ -171,9 +171,9 @@ func VH_C05_dashCanonical_Q() {
 // different closedness and a pattern of odd length); the offset and the probe position are
 // symbolic reals, so every phase of the pattern against every shape is covered.
 // Oracles: (1) pointwise: a point at arc length x of a subpath (at least 1e-6 away from every dash
-// boundary and vertex) lies on the output iff the pattern is "on" at x; (2) the number of output
-// pieces of each input subpath = number of drawn stretches, where a closed subpath that starts
-// and ends inside a dash has the two parts joined; (3) receiver/pattern unchanged, well-formed.
+// boundary and vertex) lies on the output iff the pattern is "on" at x; (2) the pieces of an open subpath appear
+// in path order (first one at the start vertex when the pattern starts on), and a closed subpath
+// that starts and ends inside a dash has the two parts joined; (3) receiver/pattern unchanged, well-formed.
 
 type vhC05Shape struct {
 	pts    []Point // vertices of one subpath
@@ -228,6 +228,7 @@ func vhC05OnSeg(a, b, p Point) bool {
 }
 
 func VH_C05_dashdriver_Q() {
+	vStub("math.Mod", vhModBounded) // exact for |offset| <= 4 periods (here <= 2)
 	shapes := vhC05Shapes(vChoose(0, 4))
 	p := &Path{}
 	for _, s := range shapes {
@@ -240,7 +241,7 @@ func VH_C05_dashdriver_Q() {
 		}
 	}
 	before := vhCopyData(p.d)
-	d := vhC05Patterns(vChoose(0, 2+2*vTier()))
+	d := vhC05Patterns(vChoose(0, 1+3*vTier()))
 	n := len(d)
 	sum := 0.0
 	for i := range d {
@@ -300,36 +301,59 @@ func VH_C05_dashdriver_Q() {
 	for k := 0; k+1 < len(pts); k++ {
 		L += math.Abs(pts[k+1].X-pts[k].X) + math.Abs(pts[k+1].Y-pts[k].Y)
 	}
-	// boundaries of the pattern inside (0,L): positions b with (u0+b) mod P in accs
-	nb := 0
+	// is there a dash boundary strictly inside (0,L)?  positions b with (u0+b) mod P in accs
+	anyBoundary := false
 	endClear := true
-	for rep := 0; rep < 8; rep++ { // L <= 4, P >= 1.5: at most 4 periods
+	for rep := 0; rep < 4; rep++ { // L <= 4, P >= 1.5: at most 3 periods
 		for j := 1; j < len(accs); j++ {
 			b := float64(rep)*P + accs[j] - u0
-			if 0 < b && b < L {
-				nb++
-			}
+			anyBoundary = anyBoundary || (0 < b && b < L)
 			endClear = endClear && math.Abs(b-L) >= 1e-6
 		}
 	}
 	vAssume(endClear)
 	onStart := vhOnPattern(off, d, 0)
 	onEnd := vhOnPattern(off, d, L)
-	want := (nb + 1) / 2
-	if onStart {
-		want = (nb + 2) / 2
-	}
-	if s.closed && onStart && onEnd && nb > 0 {
-		want-- // the two parts around the start vertex are joined
-	}
-	got := 0
-	lo, hi := s.pts[0].X-5, s.pts[0].X+5 // subpaths are 20 apart
+	// the output pieces of this input subpath (subpaths are 20 apart), in output order
+	lo, hi := s.pts[0].X-5, s.pts[0].X+5
+	var starts []Point
 	for _, sb := range subs {
 		if len(sb.segs) > 0 && lo <= sb.start.X && sb.start.X <= hi {
-			got++
+			starts = append(starts, sb.start)
 		}
 	}
-	vAssert("C05.dash.piece_count", got == want)
+	// arc length of a point on the (concrete) polyline
+	arclen := func(pt Point) float64 {
+		T, res := 0.0, 0.0
+		for k := 0; k+1 < len(pts); k++ {
+			a, b := pts[k], pts[k+1]
+			l := math.Abs(b.X-a.X) + math.Abs(b.Y-a.Y)
+			if vhC05OnSeg(a, b, pt) && !(k+2 == len(pts) && s.closed && vhNearPt(pt, pts[0])) {
+				res = T + math.Abs(pt.X-a.X) + math.Abs(pt.Y-a.Y)
+			}
+			T += l
+		}
+		return res
+	}
+	if !s.closed {
+		// pieces of an open subpath come in path order and are never joined
+		ordered := true
+		for k := 0; k+1 < len(starts); k++ {
+			ordered = ordered && arclen(starts[k]) < arclen(starts[k+1])
+		}
+		vAssert("C05.dash.open_pieces_in_path_order", ordered)
+		if onStart {
+			vAssert("C05.dash.open_first_piece_at_start", len(starts) > 0 && vhNearPt(starts[0], pts[0]))
+		}
+	} else if onStart && onEnd && anyBoundary {
+		// a closed subpath that starts and ends inside a dash: the two parts are joined, so no
+		// piece begins at the start vertex
+		joined := true
+		for _, st := range starts {
+			joined = joined && !vhNearPt(st, pts[0])
+		}
+		vAssert("C05.dash.closed_wraparound_joined", joined)
+	}
 
 	// pointwise
 	x := vNondetF64()
